@@ -4,10 +4,10 @@ import PkVerif.Gen.Facts
 import PkVerif.Gen.C18
 /-! `pkmodel-c18`: the HTTP blob protocol (server handlers over the reference map, client loops).
 
-    cfg <sto> <idx> <root>                              -> ok      (sto=mem: limit 0 means "no limit")
+    cfg <sto> <idx> <root>                              -> ok
     put <t> <true|none> <len|chunked> <body>            -> 204 | 400 | 500
     mp [<name> <true|none> <body> [| …]]                -> 200 <k:n …> err=0|1
-    stat <get|post> <ver> <maxwait> <v1> <v2> …         -> 200 <k:n …> | 400 <method|noversion|toomany|bogus>
+    stat <get|post> <ver> <maxwait> <v1> <v2> …         -> 200 <k:n …> | 400
     get <t> | head <t>                                  -> 200 <len> <body|-> | 404 | 400
     enum <after> <limit> <maxwait>                      -> 200 <k:n …> cont=<k|-> | 400
     enumpoll <limit> <maxwait> <t> <true|none> <body>   -> (enum answer) put=<code>   (the PUT lands during the wait)
@@ -30,7 +30,6 @@ def cfg : Cfg :=
     maxWait := 30, maxBlob := Gen.maxBlobSize, clientBatch := Gen.clientEnumBatch }
 
 structure St where
-  zeroAll : Bool
   m : SMap Bytes
   have_ : Have
 
@@ -56,10 +55,7 @@ def showEnum : EnumResp → String
   | .ok l ca => join2 (join2 "200" (showPairs l)) ("cont=" ++ toHexString ca)
 
 def showStat : StatResp → String
-  | .bad .method => "400 method"
-  | .bad .noVersion => "400 noversion"
-  | .bad .tooMany => "400 toomany"
-  | .bad .bogus => "400 bogus"
+  | .bad _ => "400"      -- the reason is only logged by the server
   | .ok l => join2 "200" (showPairs (sortPairs l))
 
 /-- a path element the harness can request without the mux or the router stepping in -/
@@ -95,7 +91,10 @@ def doPut (st : St) (t tr cl body : String) : Option (St × String) :=
 
 def step (s : Option St) (ws : List String) : Option St × String :=
   match s, ws with
-  | _, ["cfg", sto, _idx, _root] => (some ⟨sto == "mem", [], none⟩, "ok")
+  | _, ["cfg", sto, idx, root] =>
+    if ["mem", "disk", "diskpacked", "blobpacked"].contains sto && ["mem", "leveldb", "kv", "sqlite"].contains idx
+        && ["bs", "cond"].contains root then (some ⟨[], none⟩, "ok")
+    else (none, "bad-op")
   | none, _ => (none, "bad-op")
   | some st, ["put", t, tr, cl, body] =>
     (match doPut st t tr cl body with
@@ -132,12 +131,12 @@ def step (s : Option St) (ws : List String) : Option St × String :=
      | none => (s, "bad-op"))
   | some st, ["enum", a, l, mw] =>
     (match hexArg a, hexArg l, hexArg mw with
-     | some a, some l, some mw => (s, showEnum (handleEnumerateBlobs cfg st.zeroAll st.m [] ⟨a, l, mw⟩))
+     | some a, some l, some mw => (s, showEnum (handleEnumerateBlobs cfg st.m [] ⟨a, l, mw⟩))
      | _, _, _ => (s, "bad-op"))
   | some st, ["enumpoll", l, mw, t, tr, body] =>
     (match hexArg l, hexArg mw, doPut st t tr "len" body with
      | some l, some mw, some (st', code) =>
-       (some st', showEnum (handleEnumerateBlobs cfg st.zeroAll st.m [st'.m] ⟨[], l, mw⟩) ++ " put=" ++ code)
+       (some st', showEnum (handleEnumerateBlobs cfg st.m [st'.m] ⟨[], l, mw⟩) ++ " put=" ++ code)
      | _, _, _ => (s, "bad-op"))
   | some st, "statpoll" :: mw :: t :: tr :: body :: vs =>
     (match hexArg mw, doPut st t tr "len" body, vs.mapM hexArg with
@@ -148,7 +147,7 @@ def step (s : Option St) (ws : List String) : Option St × String :=
     (match hexArg a, ol.toNat?, wsec.toNat?,
         (if batch == "-" then some (natToDec cfg.clientBatch) else hexArg batch) with
      | some a, some ol, some wsec, some batch =>
-       let srv := fun r => handleEnumerateBlobs cfg st.zeroAll st.m [] r
+       let srv := fun r => handleEnumerateBlobs cfg st.m [] r
        let okRef := fun k => (Pk.Ref.parse tbl k true).isSome
        let r := clientEnumerate srv okRef batch ⟨a, wsec, ol⟩ (st.m.length + 2)
        (s, join2 (if r.ok then "ok" else "err") (showPairs r.sent))
